@@ -1,5 +1,6 @@
 import Uom.Model.Text
 import Uom.Proofs.BodyEq.Text
+import Uom.Proofs.BodyEq.FmtGlue
 /-!
 # C11 — formatting prints the value in the requested unit with the right label
 
@@ -93,6 +94,31 @@ theorem src_debug_fmt {V : Type} (dbg : V → Bytes) (abbrs : List Bytes) (dim :
       (.val (.ctor1 cOk .unit),
         dbg x ++ (((abbrs.zip dim).filter (fun p => p.2 ≠ 0)).map fun p => [0x20] ++ p.1 ++ [0x5e] ++ intBytes p.2).flatten) := by
   rw [debug_fmt_eq dbg abbrs dim h x, debug_segments]
+
+/-- **both entry points of the source reach that `fmt` with the caller's style and the quantity itself**:
+    `format!("{}", q.into_format_args(unit, style))` — the struct built by the regenerated `into_format_args`
+    is the one whose `fmt` writes `fmtArgs` of the converted value, whatever the unit value and for both styles -/
+theorem src_display_into_format_args {V : Type} (fromB : V → V) (fmtV : V → Bytes) (isOne : V → Bool) (u : Labels)
+    (un : RV (FH V)) (style : Style) (x : V) :
+    ∃ w, run (Uom.BodyEq.FmtGlue.envGlue fromB (fun v => some (fmtV v)) isOne u)
+            quantity_inherent_quantity_into_format_args
+            [.host (.quant x), un, Uom.BodyEq.FmtGlue.styleRV style] = (.val w, []) ∧
+      run (Uom.BodyEq.FmtGlue.envGlue fromB (fun v => some (fmtV v)) isOne u)
+          system_style_for_QuantityArguments_fmt [w, .fmtr] =
+        (.val (.ctor1 cOk .unit), fmtV (fromB x) ++ [0x20] ++ label u style (isOne (fromB x))) :=
+  Uom.BodyEq.FmtGlue.display_into_format_args fromB isOne u fmtV un style x
+
+/-- … and `format!("{}", Q::format_args(unit, style).with(q))` writes the same bytes -/
+theorem src_display_format_args_with {V : Type} (fromB : V → V) (fmtV : V → Bytes) (isOne : V → Bool) (u : Labels)
+    (un : RV (FH V)) (style : Style) (x : V) :
+    ∃ a w, run (Uom.BodyEq.FmtGlue.envGlue fromB (fun v => some (fmtV v)) isOne u)
+            quantity_inherent_quantity_format_args [un, Uom.BodyEq.FmtGlue.styleRV style] = (.val a, []) ∧
+      run (Uom.BodyEq.FmtGlue.envGlue fromB (fun v => some (fmtV v)) isOne u) quantity_inherent_Arguments_with
+            [a, .host (.quant x)] = (.val w, []) ∧
+      run (Uom.BodyEq.FmtGlue.envGlue fromB (fun v => some (fmtV v)) isOne u)
+          system_style_for_QuantityArguments_fmt [w, .fmtr] =
+        (.val (.ctor1 cOk .unit), fmtV (fromB x) ++ [0x20] ++ label u style (isOne (fromB x))) :=
+  Uom.BodyEq.FmtGlue.display_format_args_with fromB isOne u fmtV un style x
 
 end SourceTieRx
 
